@@ -420,7 +420,7 @@ def extra_phase(tier, base_seed):
         for extra, want in (([], text), (["--limit", str(limit)], text_l)):
             p = subprocess.Popen([sys.executable, "-W", "ignore", os.path.join(code, "pcfg_guesser.py")] + argv + extra,
                                  stdin=subprocess.PIPE, stdout=subprocess.PIPE, stderr=subprocess.DEVNULL,
-                                 env=dict(os.environ, PYTHONUTF8="1", PYTHONHASHSEED=str(1 + 4441 * i + (7 if extra else 0))))
+                                 env=scratch.child_env(PYTHONUTF8="1", PYTHONHASHSEED=str(1 + 4441 * i + (7 if extra else 0))))
             try:
                 so, _ = p.communicate(timeout=120)
             except subprocess.TimeoutExpired:
@@ -432,6 +432,34 @@ def extra_phase(tier, base_seed):
                     "property": "C09", "kind": "real_process_differs_from_simulation", "key": None,
                     "detail": {"argv": argv + extra, "real_len": len(so), "sim_len": len(want),
                                "real_head": so[:80].decode("utf-8", "replace"), "sim_head": want[:80]}}, "case": None})
+        # the ordinary interactive use: stdin is a terminal nobody types on (the status/quit listener stays blocked in
+        # input() until the end), stdout is a pipe to the cracker.  Only what arrives on the pipe is judged: the
+        # exit status is not part of the property.
+        import pty
+        master, slave = pty.openpty()
+        try:
+            p = subprocess.Popen([sys.executable, "-W", "ignore", os.path.join(code, "pcfg_guesser.py")] + argv +
+                                 ["--limit", str(limit)], stdin=slave, stdout=subprocess.PIPE, stderr=subprocess.DEVNULL,
+                                 env=scratch.child_env(PYTHONUTF8="1", PYTHONHASHSEED=str(3 + 977 * i)))
+            os.close(slave)
+            slave = None
+            try:
+                so, _ = p.communicate(timeout=120)
+            except subprocess.TimeoutExpired:
+                p.kill()
+                raise
+        finally:
+            os.close(master)
+            if slave is not None:
+                os.close(slave)
+        out["real_process_runs"] += 1
+        out["real_process_runs_with_terminal_on_stdin"] = out.get("real_process_runs_with_terminal_on_stdin", 0) + 1
+        if so.decode("utf-8", "surrogateescape") != text_l:
+            out["violations"].append({"seed": base_seed, "tape": list(t.rec), "violation": {
+                "property": "C09", "kind": "real_process_with_terminal_on_stdin_differs_from_simulation", "key": None,
+                "detail": {"argv": argv + ["--limit", str(limit)], "real_len": len(so), "sim_len": len(text_l),
+                           "exit_status": p.returncode,
+                           "real_tail": so[-60:].decode("utf-8", "replace"), "sim_tail": text_l[-60:]}}, "case": None})
         for fn in os.listdir(code):
             if fn.endswith(".sav") or fn.endswith(".omn"):
                 os.unlink(os.path.join(code, fn))
